@@ -84,3 +84,46 @@ func Diff(ref, got *Result) (sig, desc string) {
 		i, ea, eb, ref.Verdict, got.Verdict, strings.Join(st, ","))
 	return sig, desc
 }
+
+// PanicSig turns an error-level log line of a recover() block ("... failed: <value>\n<stack>")
+// into a signature: the panic value with numbers normalised plus the first nbio frame below the
+// panic() call.
+func PanicSig(line string) string {
+	head := line
+	if i := strings.IndexByte(line, '\n'); i >= 0 {
+		head = line[:i]
+	}
+	var nb strings.Builder
+	prevDigit := false
+	for i := 0; i < len(head); i++ {
+		c := head[i]
+		if c >= '0' && c <= '9' {
+			if !prevDigit {
+				nb.WriteByte('N')
+			}
+			prevDigit = true
+			continue
+		}
+		prevDigit = false
+		nb.WriteByte(c)
+	}
+	frame := ""
+	lines := strings.Split(line, "\n")
+	seenPanic := false
+	for _, l := range lines {
+		if strings.HasPrefix(l, "panic(") {
+			seenPanic = true
+			continue
+		}
+		if seenPanic && strings.Contains(l, "lesismal/nbio") && !strings.HasPrefix(l, "\t") {
+			frame = l[strings.LastIndex(l, "/")+1:]
+			if j := strings.IndexByte(frame, '('); j > 0 && !strings.HasPrefix(frame[j:], "(*") {
+				frame = frame[:j]
+			} else if j := strings.LastIndexByte(frame, '('); j > 0 {
+				frame = frame[:j]
+			}
+			break
+		}
+	}
+	return "panic: " + nb.String() + " @ " + frame
+}
